@@ -190,6 +190,7 @@ fn check_tree(model: &mut Model, family: &str, blk: &Blk, spans: &[usize], local
         }
     };
     let expected = norm_block(blk);
+    let tuple_arguments = count_tuple_arguments(blk);
     local.hist("family", family);
     let mut seen_text: HashMap<String, ()> = HashMap::new();
     let mut nontrivial = false;
@@ -211,6 +212,21 @@ fn check_tree(model: &mut Model, family: &str, blk: &Blk, spans: &[usize], local
             };
             // (2) trace replay by the Lean writer model
             if kind == "dense" {
+                // trace shape: every tuple argument list is opened by merge_char('('), the one
+                // primitive that keeps the `(` on the line of the callee (theorem merge_char_adjacent)
+                let merged = run.ops.iter().filter(|o| o.op == "merge_char" && o.text == "(").count();
+                if merged != tuple_arguments {
+                    local.violations.push(Violation {
+                        kind: "correspondence".into(),
+                        check: "trace-shape-call-parenthesis".into(),
+                        what: format!(
+                            "the tree has {} tuple argument lists but the dense generator opened {} with merge_char('('): the others can be separated from their callee by a line break",
+                            tuple_arguments, merged
+                        ),
+                        input: tree_input(family, blk, kind, span, &run.text),
+                        failing_input_found: false,
+                    });
+                }
                 for (l, c) in consulted_pairs(&run.ops) {
                     if l.is_ascii() && c.is_ascii() && break_table_union(l, c) {
                         local.exercised.insert((l as u8, c as u8));
@@ -698,6 +714,10 @@ pub fn run(report: &mut Report, replay: Option<&str>) {
     // ---- trees
     let mut work: Vec<(String, Blk, Vec<usize>)> = Vec::new();
     for (family, blk) in enumerated(thorough, &mut rng) {
+        let spans = spans_for(thorough, &mut rng, false);
+        work.push((family.to_owned(), blk, spans));
+    }
+    for (family, blk) in number_family(&mut rng, thorough) {
         let spans = spans_for(thorough, &mut rng, false);
         work.push((family.to_owned(), blk, spans));
     }
